@@ -63,7 +63,11 @@ theorem dup_rejected (cfg : Cfg) (now : Int) (c c1 : Coll) (fs : Fields) (id : V
     rw [insertDoc_eq, if_pos hhas]
     unfold insertCore
     simp only [patchDT, patch, hid, Option.getD_some, bind, Except.bind, hk, he, hd, if_true]
-  simp only [stepColl, hins, hhas, if_true, he]
+  have hrej : insertRejected now c (.doc fs) = c1 := by
+    unfold insertRejected insertStored
+    simp only [patchDT, patch, hid, Option.getD_some, hk, he, hd, hhas, if_true, Bool.not_true]
+    rfl
+  simp only [stepColl, hins, hrej]
 
 theorem insert_fresh (now : Int) (c c' : Coll) (d id : Val) (hn : c.ttlIndexes = [])
     (h : insertDoc now c d = .ok (c', id)) :
